@@ -212,11 +212,19 @@ def store_cases(b, fa, loc, node):
     """a store `field = v` where v is a local assigned in several arms (`let x = match .. {..}; self.f = x`) is read as
     one store per definition of v, each with the facts holding where that value was chosen"""
     e = show(b.rvalue_expr(node["rv"]))
-    m = re.fullmatch(r"var(\d+)", e)
+    m = re.fullmatch(r"var(\d+)(@Some\.0)?", e)
     if m and len(b.defs.get(int(m.group(1)), [])) > 1:
         out = []
         for dloc, kind, dn in b.defs[int(m.group(1))]:
             v = show(b.rvalue_expr(dn["rv"])) if kind == "assign" else show(b.call_expr(dn))
+            if m.group(2):
+                # `let new = match .. { .. => Some(x), .. => None }; if let Some(v) = new { field = v }`
+                mm = re.fullmatch(r"Some\{(.*)\}", v)
+                if not mm:
+                    if v == "None{}":
+                        continue
+                    return [(loc, e, fa.at(loc) if fa else None)]
+                v = mm.group(1)
             out.append((dloc, v, fa.at(dloc) if fa else None))
         return out
     return [(loc, e, fa.at(loc) if fa else None)]
@@ -447,7 +455,7 @@ def run(cx):
             inst.violation(uo.path, "rto", "RTO is %s; expected max(4*R, 2*s/X)" % got)
         # slow-start step
         hf = R.body("SendRateComp::handle_feedback")
-        steps = [show(hf.rvalue_expr(n["rv"])) for l, n, ps in hf.field_writes(r"arg1\.send_rate") if n["k"] == "assign"]
+        steps = [v for l, n, ps in hf.field_writes(r"arg1\.send_rate") if n["k"] == "assign" for _, v, _a in store_cases(hf, None, l, n)]
         ss = [s for s in steps if "mul(2,arg1.send_rate)" in s or "u32::saturating_mul(arg1.send_rate,2)" in s]
         inst.site(hf, None, "slow-start step: " + " | ".join(ss)[:160])
         if len(ss) != 1 or not re.fullmatch(r"Ord::max\(Ord::min\((?:mul\(2,arg1\.send_rate\)|u32::saturating_mul\(arg1\.send_rate,2\)),var\d+\),send_rate::compute_initial_send_rate\(.*\)\)", ss[0]):
